@@ -43,6 +43,8 @@ func checkC02(c *Ctx) {
 	ruleUTF7Chunking(c, "C02.m", "C02.m", "C02.m")
 	c.rule("C02.n", "a local filled by a decoder call is read before another decoder call fills it again", 24)
 	ruleDecodedValueNotOverwritten(c, "C02.n", "imapserver")
+	c.rule("C02.o", "a number set decoded from the wire is handed over by identity (the $ marker survives the decoder)", 3)
+	ruleDecodedSetsKeepIdentity(c, "C02.o")
 	ruleNoSwallowedError(c, "C02.d", "imapserver", "internal")
 }
 
